@@ -26,7 +26,10 @@ def run(cmd, env=None, timeout=3600, cwd=H):
         p = subprocess.run(cmd, cwd=cwd, env=e, stdout=subprocess.PIPE, stderr=subprocess.STDOUT, timeout=timeout, text=True, errors="replace")
         return p.returncode, p.stdout
     except subprocess.TimeoutExpired as ex:
-        return 124, (ex.stdout or "") + "\n[stage watchdog: timed out]"
+        so = ex.stdout or ""
+        if isinstance(so, bytes):
+            so = so.decode("utf-8", "replace")
+        return 124, so + "\n[stage watchdog: timed out]"
 
 
 def corpus(n, tag):
